@@ -76,6 +76,12 @@ func checkC01(c *Ctx) {
 		})
 	}
 
+	// ---- C01-STOP: stopping the parked parser coroutine resumes it; it still calls p.yield while it unwinds
+	c.checkParserStopOrder("C01-STOP")
+
+	// ---- C01-CYCLE: printing and Show terminate on cyclic scope graphs because the Seen set is threaded
+	c.checkSeenThreaded()
+
 	// ---- C01-TA
 	for _, f := range c.zygoFuncs() {
 		if !inU(f) {
@@ -494,4 +500,80 @@ func errKnownNonNil(r *ssa.Return, e ssa.Value) bool {
 		}
 		return true, bo.Op == token.NEQ
 	})
+}
+
+// checkSeenThreaded: every method of *PrintState that derives a new
+// *PrintState from its receiver hands the receiver's Seen set on. Show and
+// SexpString recurse through scope stacks, closures and packages, which can
+// contain themselves; the Seen set is what ends that recursion, and
+// closures are shown on every creation, outside any recover.
+func (c *Ctx) checkSeenThreaded() {
+	psT := c.named("PrintState")
+	seen := c.field("PrintState", "Seen")
+	if psT == nil || seen == nil {
+		c.undecided("C01-CYCLE", "PrintState", "Seen", token.NoPos, "PrintState.Seen not found")
+		return
+	}
+	n := 0
+	for _, f := range c.zygoFuncs() {
+		if f.Parent() != nil || !isMethodOf(f, psT) || len(f.Params) == 0 {
+			continue
+		}
+		res := f.Signature.Results()
+		if res.Len() != 1 {
+			continue
+		}
+		if nm, ok := derefNamed(res.At(0).Type()); !ok || nm != psT {
+			continue
+		}
+		recv := f.Params[0]
+		n++
+		okAll := true
+		var badPos token.Pos
+		for _, r := range returnsOf(f) {
+			// returns reached only when the receiver is nil start a fresh set
+			nilOnly := guardedBy(r.Block(), func(cond ssa.Value) (bool, bool) {
+				bo, ok := cond.(*ssa.BinOp)
+				if !ok || (bo.Op != token.EQL && bo.Op != token.NEQ) || bo.X != ssa.Value(recv) || !isNilConst(bo.Y) {
+					return false, false
+				}
+				return true, bo.Op == token.EQL
+			})
+			if nilOnly {
+				continue
+			}
+			for _, leaf := range phiLeaves(r.Results[0]) {
+				if leaf == ssa.Value(recv) {
+					continue // returns the receiver itself
+				}
+				threaded := false
+				eachInstr(f, func(b *ssa.BasicBlock, i int, in ssa.Instruction) {
+					st, ok := in.(*ssa.Store)
+					if !ok {
+						return
+					}
+					fa, ok := st.Addr.(*ssa.FieldAddr)
+					if !ok || faField(fa) != seen || fa.X != leaf {
+						return
+					}
+					if base, ok := loadOfField(st.Val, seen); ok && base == ssa.Value(recv) {
+						threaded = true
+					}
+				})
+				if !threaded {
+					okAll = false
+					badPos = r.Pos()
+				}
+			}
+		}
+		if !badPos.IsValid() {
+			badPos = f.Pos()
+		}
+		c.check(okAll, "C01-CYCLE", fnName(f), "derived print state shares the Seen set", badPos,
+			"the state returned for a non-nil receiver carries the receiver's Seen set",
+			"the print state derived from a non-nil receiver starts with a fresh Seen set: nested Show/SexpString calls no longer recognise a scope, stack or package they are already inside, and a cyclic scope graph (a package bound in a local scope, then a closure created there) recurses until the Go stack overflows, which no recover can catch")
+	}
+	if n == 0 {
+		c.undecided("C01-CYCLE", "PrintState", "derived states", token.NoPos, "no method deriving a print state found")
+	}
 }
